@@ -35,9 +35,11 @@ RULE = ("seeded scenarios: window size 1-64, receiver initialised or uninitialis
 COMPONENTS_REAL = ["aiocoap.oscore.ReplayWindow (is_valid, strike_out, initialize_*)",
                    "aiocoap.oscore.CanUnprotect.unprotect (window check, strike-out after decryption, Echo recovery)",
                    "aiocoap.oscore.CanProtect.protect", "aiocoap.oscore.ReplayErrorWithEcho.to_message",
-                   "aiocoap.message (encode/decode)", "cryptography 38.0.4"]
+                   "aiocoap.message (encode/decode)", "cryptography 38.0.4",
+                   "aiocoap.oscore.SimpleGroupContext / _GroupContextAspect, Ed25519 countersignatures (group family)"]
 COMPONENTS_STUB = ["cbor2 (deterministic stand-in)", "network (byte strings handed over directly)",
-                   "in-memory security contexts (post_seqnoincrease is a no-op)", "Echo values (from the scenario)"]
+                   "in-memory security contexts (post_seqnoincrease is a no-op)", "Echo values (from the scenario)",
+                   "Ed25519 key generation of the group family (seeded)"]
 ASSUMPTIONS = ["the sender's numbers increase in creation order and a request carrying the Echo value of receiver "
                "incarnation i is created during incarnation i (it cannot arrive earlier)",
                "no assumption about the in-window policy for unseen numbers: only 'at most once', 'never below the "
